@@ -5,7 +5,9 @@ from .core import Shard, run, align_lines, res_replay
 from .oracle import cal, dur
 
 KARGS = {"ymd": [], "ywd": [], "yd": [], "ymcw": [], "bizda": [],
-         "ldn": ["-i", "ldn", "-f", "ldn"], "mdn": ["-i", "mdn", "-f", "mdn"]}
+         "ldn": ["-i", "ldn", "-f", "ldn"], "mdn": ["-i", "mdn", "-f", "mdn"],
+         # seconds since 1970 (midnights): held as one number, added to by its own routine
+         "epoch": ["-i", "%s", "-f", "%s"]}
 
 
 def ktext(K, o):
@@ -14,6 +16,8 @@ def ktext(K, o):
         return ("%d" % (o - cal.ORD_LDN0),)
     if K == "mdn":
         return ("%d" % (o + cal.MDN_OFF),)
+    if K == "epoch":
+        return ("%d" % ((o - cal.ORD_UNIX) * 86400),)
     if K == "bizda":
         return (dur.bizda_text(o),)
     D = cal.Day(o)
@@ -72,7 +76,12 @@ def add_task(task):
         kargs = [a for a in kargs if a not in ("-f",)][:2] if K in ("ldn", "mdn") else list(kargs)
         kargs = kargs + ["-f", OK_]
         tag = tag + ">" + OK_
-    argv = [str(bindir / "dadd")] + kargs + ["--"] + list(durs)
+    durs = list(durs)
+    if K == "epoch" and durs and not durs[0].startswith("+"):
+        # with -i %s a first argument like -7d would be read as the reference value -7 (trailing text is
+        # not looked at, pinned by dtseq.03/05), so lead with a duration that cannot be a stamp
+        durs = ["+0s"] + durs
+    argv = [str(bindir / "dadd")] + kargs + ["--"] + durs
     KO = OK_ or K
     pos = 0
     guard = 0
